@@ -112,19 +112,15 @@ Theorem C13_bch_commuting :
   bch_eval F zero add smul lb u v (gen_bch_terms terms) = add v u.
 Proof. exact (bch_commuting K Kf). Qed.
 
-(* 6. logv: its expv step receives the caller's flag (this part holds) *)
-Theorem C13_logv_expv_step_flags_partial :
-  forall ac, gen_logv_expv_gac ac = ac /\ gen_logv_expv_sac ac = ac.
-Proof. intro ac. split; destruct ac; reflexivity. Qed.
+(* 6. logv: every flag reaching Grid.coords / F.grid_sample inside logv -- in its expv step and in its compose_flows
+      step -- is the caller's align_corners, with border padding (generated from the source); compose_flows accepts batches *)
+Theorem C13_logv_forwards_align_corners :
+  forall ac, gen_logv_expv_gac ac = ac /\ gen_logv_expv_sac ac = ac /\ gen_logv_compose_gac ac = ac /\ gen_logv_compose_sac ac = ac /\
+             gen_logv_expv_pad ac = PBorder /\ gen_logv_compose_pad ac = PBorder.
+Proof. intro ac. repeat split; destruct ac; reflexivity. Qed.
+Theorem C13_compose_flows_batched : gen_compose_flows_batched = true.
+Proof. reflexivity. Qed.
 End Statements.
-
-(* FULL statement (does not hold for the unchanged code, DESIGN section 5 #16):
-     forall ac, gen_logv_compose_gac ac = ac /\ gen_logv_compose_sac ac = ac.
-   logv calls compose_flows(flow, u) without align_corners, so for align_corners = False the composition inside logv
-   samples in the OTHER convention.  Delete the theorem below (and state the full one) once core/flow.py forwards the flag. *)
-Theorem C13_logv_compose_flags_refuted :
-  exists ac, gen_logv_compose_gac ac <> ac /\ gen_logv_compose_sac ac <> ac.
-Proof. exists false. split; discriminate. Qed.
 
 Print Assumptions C13_compose_affine_exact_2d.
 Print Assumptions C13_compose_affine_exact_3d.
@@ -136,8 +132,8 @@ Print Assumptions C13_lie_bracket_bilinear_3d.
 Print Assumptions C13_lie_bracket_antisymmetric.
 Print Assumptions C13_bch_table.
 Print Assumptions C13_bch_commuting.
-Print Assumptions C13_logv_expv_step_flags_partial.
-Print Assumptions C13_logv_compose_flags_refuted.
+Print Assumptions C13_logv_forwards_align_corners.
+Print Assumptions C13_compose_flows_batched.
 
 (* PARTIAL clauses, not proved (quantitative statements about discretised smooth fields; explored numerically on the
    implementation by tools/props/c13.py:search): BCH error for non-commuting fields does not grow with the truncation
